@@ -1,12 +1,15 @@
 (** Property C10 — malformed templates are rejected with a located error, never mis-compiled.
     Proved: the command-line generator emits nothing unless parsing succeeded without error; the indentation
     rule; and the nesting rules of elements, comments and filters as the parser applies them in every state.
-    That each error carries a position inside the file is checked by the correspondence run (fault injection at
-    every applicable position), not proved.
+    Located: every token the lexer delivers, for every input -- its error tokens included -- carries a line number
+    inside the file (at least 1, at most one more than the file has line breaks), and the parser reports a lexer
+    error with exactly the position of that token.  Columns, and that the errors the parser makes itself (they take
+    the position of a token the lexer delivered) inherit the bound, are checked by the correspondence run (fault
+    injection at every applicable position), not proved.
     OBLIGATIONS: C10_no_code_on_error C10_indent_rule C10_void_or_inline_content_refused C10_comment_content_refused
-                 C10_unknown_filter_refused C10_nonvacuous *)
-From GV Require Import Compiler.Compile.
-From Coq Require Import Lia.
+                 C10_unknown_filter_refused C10_token_lines_inside_file C10_lexer_error_keeps_its_position C10_nonvacuous *)
+From GV Require Import Compiler.Compile Proofs.LexSafeProofs Proofs.LexLineProofs.
+From Coq Require Import Lia ZArith.
 Open Scope N_scope.
 
 (** `goht generate` writes code only for a file that parsed completely and without error *)
@@ -71,6 +74,27 @@ Proof.
   destruct fuel; cbn [handle_node]; cbv zeta; rewrite Ht, Hn, H1, H2, H3, H4, H5; cbn; eexists; reflexivity.
 Qed.
 Print Assumptions C10_unknown_filter_refused.
+
+(** every token the parser receives from the lexer, whatever it pulls and however often, lies on a line of the file:
+    [LL input] is the invariant of the lexer (the reader holds exactly the input; one line counter more than line
+    breaks read, at most; the tokens queued are on lines of the file), [tok_eof] the placeholder the pump returns once
+    the lexer has stopped (after the real EOF or Error token) *)
+Theorem C10_token_lines_inside_file : forall input,
+  LL input (new_lexer input) /\
+  forall fuel lx, LL input lx ->
+    match next_token fuel lx with
+    | PTok t lx' => (t = tok_eof \/ (1 <= t_line t <= 1 + Z.of_nat (nl input))%Z) /\ LL input lx'
+    | _ => True
+    end.
+Proof. intro input. split; [apply new_lexer_lines|]. intros fuel lx H. exact (next_token_lines input fuel lx H). Qed.
+Print Assumptions C10_token_lines_inside_file.
+
+(** an error token of the lexer becomes the error of the parse, with the position of that token *)
+Theorem C10_lexer_error_keeps_its_position : forall lexfuel fuel indent p,
+  t_typ (p_peek p) = TError ->
+  handle_node lexfuel fuel indent p = RErr (PosErr (t_line (p_peek p)) (t_col (p_peek p)) (t_lit (p_peek p))) p.
+Proof. intros lexfuel fuel indent p Ht. destruct fuel; cbn [handle_node]; cbv zeta; rewrite Ht; reflexivity. Qed.
+Print Assumptions C10_lexer_error_keeps_its_position.
 
 (** the model rejects an unknown filter with a position on the faulty line *)
 Example C10_nonvacuous :
